@@ -76,15 +76,16 @@ func selfTestLowOrder() error {
 }
 
 type m4Party struct {
-	Name     string `json:"party"`
-	EphOwner string `json:"ephemeral_key_received_from"`
-	LowOrder bool   `json:"fed_low_order_point,omitempty"`
-	Tampered bool   `json:"incoming_auth_frame_altered,omitempty"`
-	Done     bool   `json:"completed"`
-	Remote   string `json:"remote_pubkey_reported,omitempty"`
-	RemoteOf string `json:"remote_pubkey_held_by,omitempty"`
-	Err      string `json:"error,omitempty"`
-	ch       <-chan hsResult
+	Name      string `json:"party"`
+	EphOwner  string `json:"ephemeral_key_received_from"`
+	LowOrder  bool   `json:"fed_low_order_point,omitempty"`
+	Tampered  bool   `json:"incoming_auth_frame_altered,omitempty"`
+	Rewritten bool   `json:"ephemeral_key_value_altered_between_the_ends,omitempty"`
+	Done      bool   `json:"completed"`
+	Remote    string `json:"remote_pubkey_reported,omitempty"`
+	RemoteOf  string `json:"remote_pubkey_held_by,omitempty"`
+	Err       string `json:"error,omitempty"`
+	ch        <-chan hsResult
 }
 
 type m4Env struct {
@@ -153,8 +154,8 @@ func init() {
 		{"reflection", scReflect},
 		{"auth-frame-tampered-in-transit", scAuthTamper},
 		{"low-order-ephemeral", scLowOrder},
-		{"mitm-relay-auth-reencrypted", scMitmRelayAuth},
-		{"replay-auth-from-earlier-session", scReplayAuth},
+		{"ephemeral-key-rewritten-keeping-dh", scEphRewrite},
+		{"ephemeral-key-rewritten-keeping-dh", scEphRewrite},
 	}
 }
 
@@ -268,6 +269,8 @@ func (e *m4Env) judge() {
 			s.Violation("m4/low-order-ephemeral-accepted", fmt.Sprintf("%s: party %s completed the handshake although the ephemeral key it received (%s) is a low-order point: the shared secret is the constant zero", e.Scenario, p.Name, e.Variant), wit())
 		case p.Tampered:
 			s.Violation("m4/tampered-auth-frame-accepted", fmt.Sprintf("%s: party %s completed although the sealed auth frame it received was altered in transit (%s)", e.Scenario, p.Name, e.Variant), wit())
+		case p.Rewritten:
+			s.Violation("m4/rewritten-ephemeral-key-accepted", fmt.Sprintf("%s: party %s reports an established link although a man in the middle changed the ephemeral key value between the two honest ends (%s): the ends do not share one ephemeral exchange", e.Scenario, p.Name, e.Variant), wit())
 		case p.RemoteOf != p.EphOwner:
 			s.Violation("m4/identity-not-bound-to-exchange", fmt.Sprintf("%s (%s): party %s completed believing the remote is the key held by %s, but the ephemeral key it exchanged came from %s", e.Scenario, e.Variant, p.Name, p.RemoteOf, p.EphOwner), wit())
 		default:
@@ -509,6 +512,106 @@ func scEphSubst(e *m4Env) {
 	pb := e.start("B", b, e.kB, ownerB)
 	e.fill(pa, <-pa.ch)
 	e.fill(pb, <-pb.ch)
+}
+
+// scEphRewrite: between two HONEST ends the man in the middle rewrites the
+// ephemeral-key message so that X25519 still yields the same secret.  Where
+// the 32-byte key value an end takes differs from what its peer sent, the two
+// ends no longer share one exchange and neither may establish.  Rewrites of
+// the encoding only (same 32 bytes understood by the receiver) are played too
+// and judged by the identity oracle alone.
+func scEphRewrite(e *m4Env) {
+	a, b := e.pipe()
+	q, slot := e.idx/len(m4Scenarios), e.idx%len(m4Scenarios)-15
+	v := (2*q + slot) % 7
+	keyOf := func(u []byte) []byte { // unit 0 = len 0x0a 0x20 key
+		_, w := binary.Uvarint(u)
+		return u[w+2 : w+2+32]
+	}
+	setTop := func(u []byte) []byte {
+		k := append([]byte{}, keyOf(u)...)
+		k[31] |= 0x80 // bit 255: ignored by X25519
+		return ephMessage(k)
+	}
+	addP := func(u []byte) ([]byte, bool) { // u+p, the other encoding of a u < 19
+		k := keyOf(u)
+		for i := 1; i < 32; i++ {
+			if k[i] != 0 {
+				return nil, false
+			}
+		}
+		if k[0] >= 19 {
+			return nil, false
+		}
+		n := make([]byte, 32)
+		for i := range n {
+			n[i] = 0xff
+		}
+		n[0] = 0xed + k[0]
+		n[31] = 0x7f
+		return ephMessage(n), true
+	}
+	var rwAB, rwBA func(u []byte) []byte
+	judged := true
+	switch v {
+	case 0:
+		e.Variant = "bit 255 of A's key set on the way to B"
+		rwAB = setTop
+	case 1:
+		e.Variant = "bit 255 of B's key set on the way to A"
+		rwBA = setTop
+	case 2:
+		e.Variant = "bit 255 set in both directions"
+		rwAB, rwBA = setTop, setTop
+	case 3:
+		e.Variant = "A's key replaced by u+p where u<19 (else bit 255 set), B's by bit 255 set"
+		rwAB = func(u []byte) []byte {
+			if m, ok := addP(u); ok {
+				e.s.Count("m4_noncanonical_u_plus_p_applied", 1)
+				return m
+			}
+			return setTop(u)
+		}
+		rwBA = setTop
+	case 4:
+		judged = false
+		e.Variant = "encoding only: one extra byte appended to A's key value (33 bytes)"
+		rwAB = func(u []byte) []byte { return ephMessage(append(append([]byte{}, keyOf(u)...), 0x5a)) }
+	case 5:
+		judged = false
+		e.Variant = "encoding only: unknown protobuf field appended to both key messages"
+		f := func(u []byte) []byte {
+			_, w := binary.Uvarint(u)
+			return delimited(append(append([]byte{}, u[w:]...), 0x10, 0x07))
+		}
+		rwAB, rwBA = f, f
+	default:
+		judged = false
+		e.Variant = "encoding only: non-minimal length prefix on A's key message"
+		rwAB = func(u []byte) []byte {
+			_, w := binary.Uvarint(u)
+			body := u[w:]
+			return append([]byte{byte(len(body)) | 0x80, 0x00}, body...)
+		}
+	}
+	mk := func(rw func([]byte) []byte) Hook {
+		return func(i int, u []byte) Action {
+			if i == 0 && rw != nil {
+				return Action{Out: [][]byte{rw(u)}}
+			}
+			return Pass(u)
+		}
+	}
+	a.Interpose(mk(rwAB))
+	b.Interpose(mk(rwBA))
+	pa := e.start("A", a, e.kA, "B")
+	pb := e.start("B", b, e.kB, "A")
+	pa.Rewritten, pb.Rewritten = judged, judged
+	e.fill(pa, <-pa.ch)
+	e.fill(pb, <-pb.ch)
+	if !judged && pa.Done && pb.Done {
+		e.s.Count("m4_encoding_only_rewrite_established_with_same_key_values", 1)
+	}
 }
 
 func scLowOrder(e *m4Env) {
